@@ -72,6 +72,42 @@ def construction(repo, run, fn):
         run.judged(rid, "OdeSystem(%s=%s)" % (k, got), ok=ok)
         if not ok:
             run.report("C18.1", DS, kw.get(k, c), "OdeSystem keyword `%s` is bound to `%s`, solve_ivp's contract binds it to %s" % (k, got, want), text="OdeSystem(%s=%s)" % (k, got))
+    # ... and what those names hold is what the caller passed: a rebinding of the state parameter before the construction may convert it (asarray / astype / copy)
+    # but not change its shape - `y` of the result is (*state shape, n_t) and the right-hand side is called with arrays of the state's shape, 0-d included
+    SHAPE_PRESERVING = {"asarray", "asanyarray", "array", "ascontiguousarray", "astype", "copy", "to", "to_numpy", "clone", "detach", "float", "double"}
+    SHAPE_CHANGING = {"atleast_1d", "atleast_2d", "atleast_3d", "reshape", "ravel", "flatten", "squeeze", "expand_dims", "unsqueeze", "view", "stack", "concatenate", "tile",
+                      "broadcast_to", "transpose", "moveaxis", "swapaxes"}
+    state_param = src(kw["y0"]) if "y0" in kw and isinstance(kw["y0"], ast.Name) else None
+    if state_param is not None:
+        rebinds = [st for st in walk_no_nested(fn) if isinstance(st, (ast.Assign, ast.AugAssign)) and
+                   any(isinstance(t, ast.Name) and t.id == state_param for t in (st.targets if isinstance(st, ast.Assign) else [st.target]))]
+        for st in rebinds:
+            v = st.value
+            chain, ok, why = [], not isinstance(st, ast.AugAssign), None
+            while ok and not (isinstance(v, ast.Name) and v.id == state_param):
+                if isinstance(v, ast.Call):
+                    nm = (dotted(v.func) or src(v.func)).split(".")[-1]
+                    chain.append(nm)
+                    if nm in SHAPE_CHANGING:
+                        ok, why = False, nm
+                        break
+                    if nm not in SHAPE_PRESERVING:
+                        raise AnalysisError("solve_ivp: the state parameter is rebound through `%s`, a form the shape rule does not know" % nm)
+                    v = v.func.value if isinstance(v.func, ast.Attribute) and nm in ("astype", "copy", "to", "clone", "detach", "float", "double") else (v.args[0] if v.args else None)
+                    if v is None:
+                        raise AnalysisError("solve_ivp: rebinding of the state parameter without an argument")
+                elif isinstance(v, ast.Subscript):
+                    ok, why = False, "indexing `%s`" % src(v)[:40]
+                elif isinstance(v, ast.IfExp):
+                    raise AnalysisError("solve_ivp: conditional rebinding of the state parameter")
+                else:
+                    raise AnalysisError("solve_ivp: the state parameter is rebound to `%s`, a form the shape rule does not know" % src(v)[:60])
+            run.judged(rid, "state parameter rebinding `%s` keeps the shape (chain %s)" % (src(st)[:60], chain), ok=ok)
+            if not ok:
+                run.report("C18.1", DS, st, "the initial state is reshaped before the system is built (%s): a 0-d (scalar) state becomes shape (1,), so `y` of the result is "
+                                            "(1, n_t) instead of (*state shape, n_t) = (n_t,), the right-hand side is called with arrays of another shape than the state it was "
+                                            "given, and the result no longer matches OdeSystem driven with the same y0" % (why or "augmented assignment"),
+                           text="state parameter reshaped: %s" % (why or "augmented assignment"))
     # method
     ms = [st for st in fn.body if isinstance(st, ast.Assign) and src(st.targets[0]) == sysname + ".method"]
     ok = len(ms) == 1 and src(ms[0].value) == "method"
